@@ -174,7 +174,7 @@ def _outer_shapes(tier):
     return out
 
 
-def rule_sh2(ctx):
+def rule_sh2(ctx, only=None):
     r = ctx.r
     r.rule("SH2", "abstract interpretation of the vectorised helpers "
                   "(apply_bilinear, normsq, normalize, projection, "
@@ -247,6 +247,8 @@ def rule_sh2(ctx):
     outers = _outer_shapes(ctx.tier)
     total = 0
     for label, rel, q, run, want in table:
+        if only is not None and q not in only:
+            continue
         f = ctx.p.get_function(rel, q)
         r.analysed(f)
         bad = []
@@ -303,7 +305,7 @@ AX1_EXEMPT = {
 }
 
 
-def rule_ax1(ctx, rels):
+def rule_ax1(ctx, rels, scope=None):
     import ast
     from ..flow import dotted
     from ..project import norm_stmt
@@ -318,6 +320,8 @@ def rule_ax1(ctx, rels):
         m = ctx.p.module_by_rel(rel)
         for f in ctx.p.all_functions:
             if f.module is not m or f.parent is not None:
+                continue
+            if scope is not None and f not in scope:
                 continue
             for c in ast.walk(f.node):
                 if not isinstance(c, ast.Call):
@@ -358,7 +362,8 @@ def rule_ax1(ctx, rels):
                         "well as within them, so values are exchanged "
                         "between different units of the array",
                         instance=inst)
-    r.require_count("AX1", "axis-sensitive calls in scope", n, 3)
+    if n == 0:
+        r.note("AX1", ",".join(rels), "", "no axis-sensitive call in scope")
 
 
 # ---------------------------------------------------------------------------
